@@ -28,6 +28,35 @@ func (ex *Exec) checkBudget(pos token.Pos) {
 	}
 }
 
+// nthMatch: position of the n-th statement (source order) of the function whose text starts with the anchor.
+func (ex *Exec) nthMatch(anchor string, n int) token.Pos {
+	key := fmt.Sprintf("%s@%d", anchor, n)
+	if p, ok := ex.nthCache[key]; ok {
+		return p
+	}
+	want := normalizeStmtText(anchor)
+	count := 0
+	pos := token.NoPos
+	if ex.decl != nil {
+		ast.Inspect(ex.decl, func(m ast.Node) bool {
+			if pos != token.NoPos {
+				return false
+			}
+			if st, ok := m.(ast.Stmt); ok {
+				if _, isBlock := st.(*ast.BlockStmt); !isBlock && strings.HasPrefix(normalizeStmtText(nodeString(ex.fset, st)), want) {
+					count++
+					if count == n {
+						pos = st.Pos()
+					}
+				}
+			}
+			return true
+		})
+	}
+	ex.nthCache[key] = pos
+	return pos
+}
+
 // applyGhostUpdate executes one ghost assignment in the current state.
 func (ex *Exec) applyGhostUpdate(st *State, g *GhostUpdate, pos token.Pos) {
 	gv, ok := ex.cs.Ghost[g.Name]
@@ -76,7 +105,7 @@ func (ex *Exec) stmt(st *State, s ast.Stmt, c *ctl, k func(*State)) {
 				}
 			}
 			for i, a := range ex.fc.Asserts {
-				if strings.HasPrefix(text, normalizeStmtText(a.Before)) {
+				if strings.HasPrefix(text, normalizeStmtText(a.Before)) && (a.Nth == 0 || ex.nthMatch(a.Before, a.Nth) == s.Pos()) {
 					ex.assertHit[i] = true
 					env := ex.envAt(st, s.Pos())
 					if a.Assume {
